@@ -3863,7 +3863,7 @@ else { /** Multiple data chunks **/
 
             if ( bytes_written < block_bytes ) {
 	       bytes_to_write = block_bytes - bytes_written ;
-	       start_offset  = MAX ( 0L, (start_byte - total_bytes) ) ;
+	       start_offset  = MAX ( 0L, (start_byte - chunk_end_byte) ) ;
                ADFI_write_data_chunk( file_index,
 		   &data_chunk_table[node.number_of_data_chunks ].start,
 		   tokenized_data_type, file_bytes,
